@@ -91,6 +91,12 @@ class FakeNet:
             r = urllib.response.addinfourl(io.BytesIO(body), headers, url, 503)
             r.msg = "Service Unavailable"
             return r
+        if action == "midbody":    # the connection times out after part of the body has been delivered
+            body = payload_bytes(url, "good", rows, gz)
+            headers["Content-Length"] = str(len(body))
+            r = urllib.response.addinfourl(_DiesMidway(body), headers, url, 200)
+            r.msg = "OK"
+            return r
         if action == "short":      # announces more bytes than it delivers -> ContentTooShortError in urlretrieve
             body = payload_bytes(url, "good", rows, gz)
             headers["Content-Length"] = str(len(body) + 100)
@@ -103,6 +109,21 @@ class FakeNet:
         r = urllib.response.addinfourl(io.BytesIO(body), headers, url, 200)
         r.msg = "OK"
         return r
+
+
+class _DiesMidway(io.BytesIO):
+    """delivers the first part of the body (cut on a line boundary when there is one), then the read times out"""
+
+    def __init__(self, body):
+        cut = body.rfind(b"\n", 0, max(2, len(body) // 2)) + 1 or max(1, len(body) // 2)
+        super().__init__(body[:cut])
+        self._dead = False
+
+    def read(self, n=-1):
+        b = super().read(n)
+        if b:
+            return b
+        raise TimeoutError("fake network: timed out in the middle of the body")
 
 
 NET = FakeNet()
